@@ -88,4 +88,4 @@ def main(tier, seed, replay=None):
                 cl.Config(n=2, crash=1, restart=1, user=3, sync=('USER',))]
     return cc.run('C02', tier, seed, LABELS, [], e1, [], ['StepsC02'], sim, rnd,
                   n_beh=48 if q else 400, beh_depth=150, n_rnd=40 if q else 400, rnd_steps=250,
-                  e1_timeout=600 if q else 2400, extra_scenarios=[running_failure_scenarios])
+                  e1_timeout=600 if q else 1500, extra_scenarios=[running_failure_scenarios])
